@@ -12,7 +12,7 @@ pub proof fn lemma_run_cti(h: Seq<T>, n: nat)
 pub proof fn lemma_cti_closed_form(h: Seq<T>, n: nat)
     requires n >= 1
     ensures CorrelationTrendIndicator::<Echo>::out(run::<CorrelationTrendIndicator<Echo>>((None::<T>, CorrelationTrendIndicatorOwn { n: n, w: Seq::<T>::empty() }), h))
-        == (Some(mk(cti_of(win(h, n), n as real))))
+        == (Some(mk(r_clamp(cti_of(win(h, n), win(h, n).len() as real), -1real, 1real))))
 {
     lemma_run_cti(h, n);
 }
